@@ -124,10 +124,42 @@ def prebuild_deps():
                     shutil.rmtree(q, ignore_errors=True) if os.path.isdir(q) else os.remove(q)
 
 
+CANONICAL_NEW = "range::BoundSet::new"
+
+
+def alias_anchors(doc):
+    """The validating constructor of BoundSet is an anchor of many tables and is addressed by its path. When a function of
+    that path does not exist, the unique associated function of BoundSet with the signature (Bound, Bound) ->
+    Option<BoundSet> is taken for it (a rename): every reference to its path — and to the closures written in it — is
+    rewritten to the canonical path. Never active on a tree that has `range::BoundSet::new`."""
+    if CANONICAL_NEW in doc["bodies"]:
+        return doc
+    types = doc["types"]
+    cands = []
+    for k, b in doc["bodies"].items():
+        if b.get("impl_self") != "range::BoundSet" or b.get("arg_count") != 2 or b.get("def_kind") != "AssocFn":
+            continue
+        loc = b["locals"]
+        if types[loc[1]]["s"] == "range::Bound" and types[loc[2]]["s"] == "range::Bound" \
+                and types[loc[0]]["s"].replace(" ", "") == "std::option::Option<range::BoundSet>":
+            cands.append(k)
+    if len(cands) != 1:
+        return doc
+    old = cands[0]
+    text = json.dumps(doc)
+    q = json.dumps(old)[:-1]                      # the JSON spelling of the path without the closing quote
+    text = text.replace(q + '"', '"' + CANONICAL_NEW + '"').replace(q + "::{", '"' + CANONICAL_NEW + "::{")
+    new = json.loads(text)
+    new["_aliases"] = {old: CANONICAL_NEW}
+    return new
+
+
 class Program:
     """Typed view of a fact document."""
 
     def __init__(self, doc):
+        doc = alias_anchors(doc)
+        self.aliases = doc.get("_aliases", {})
         self.doc = doc
         self.bodies = doc["bodies"]
         self.types = doc["types"]
